@@ -370,6 +370,16 @@ func vfDeviations(def *conformancev1.TestCase) []vfDeviation {
 					hl.set(a, cur)
 				}})
 			}
+			if cm := canonicalModel(h.Value); len(cm) >= 2 && cm[0] != cm[len(cm)-1] {
+				// the values in another order (service.proto: values are "in the order they appeared")
+				add(vfDeviation{class: "meta-value-order:" + hl.what, field: "meta", pos: k, want: fmt.Sprintf("%s has incorrect values for %q", hl.what, strings.ToLower(h.Name)), alt: fmt.Sprintf("%q", strings.ToLower(h.Name)), apply: func(a *conformancev1.ClientResponseResult) {
+					cur := vfCloneHeaders(hl.get(a))
+					vals := canonicalModel(cur[k].Value)
+					vals[0], vals[len(vals)-1] = vals[len(vals)-1], vals[0]
+					cur[k].Value = vals
+					hl.set(a, cur)
+				}})
+			}
 			add(vfDeviation{class: "meta-value-added:" + hl.what, field: "meta", pos: k, want: fmt.Sprintf("%s has incorrect values for %q", hl.what, strings.ToLower(h.Name)), alt: fmt.Sprintf("%q", strings.ToLower(h.Name)), apply: func(a *conformancev1.ClientResponseResult) {
 				cur := vfCloneHeaders(hl.get(a))
 				cur[k].Value = append(cur[k].Value, "verif-extra-value")
